@@ -95,7 +95,7 @@ def mk_ma(lit):
             for n, q in names:
                 a[AssetName(bytes.fromhex(n))] = q
             seen[key] = a
-        ma[ScriptHash(bytes.fromhex(p))] = a
+        ma[pol(p)] = a
     return ma
 
 
